@@ -218,3 +218,104 @@ func (h *harness) noInStream() {
 		}
 	}
 }
+
+// ---- which characters an identifier escape may denote, by place (ES5 7.6) ----
+
+type escChar struct {
+	esc, plain string // the \uXXXX spelling and the character itself
+}
+
+func mkEsc(rs ...rune) []escChar {
+	out := make([]escChar, len(rs))
+	for i, r := range rs {
+		out[i] = escChar{fmt.Sprintf("\\u%04x", r), string(r)}
+	}
+	return out
+}
+
+// IdentifierStart characters: legal as first and as later character
+var escStart = mkEsc('a', 'Z', '$', '_', 0xe9, 0x3c0, 0x4e2d)
+
+// IdentifierPart but not IdentifierStart: digits, a combining mark, a connector punctuation, an Arabic-Indic digit
+var escPartOnly = mkEsc('0', '1', '7', '9', 0x301, 0x203f, 0x660)
+
+// never part of an identifier, or not an escape at all
+var escNever = []string{`\u0020`, `\u002d`, `\u005c`, `\u0000`, `\u0028`, `\u002e`, `\u2028`, `\u00a0`, `\u0022`, `\u003d`, `\u12`, `\u`, `\x41`, `\u{41}`, `\U0041`, `\u004g`, `\`, `\\`}
+
+var escExtraPositions = []string{"x = %s + 1;", "x = f(%s);", "x = typeof %s;", "x = {k: %s};", "if (%s) ;", "x = [%s];", "x = %s.p;", "x = new %s;"}
+
+func (h *harness) escapeCharStream() {
+	positions := append(append(append([]string{}, idPositions...), namePositions...), escExtraPositions...)
+	family := func(kind, name string, mustAccept bool, plain string) {
+		offender, n := "", 0
+		robust := []bool{true, true, true, true, true, true, true}
+		bad := ""
+		for pi, pos := range positions {
+			if !mustAccept && (strings.Contains(pos, "{%s:") || strings.Contains(pos, "get %s(")) {
+				continue // an ILLEGAL token as a property key is the separate open finding C04-illegal-token-key
+			}
+			src := strings.ReplaceAll(pos, "%s", name)
+			n++
+			res := parseGuard(src, 0, nil)
+			rc := parseGuard(src, 1<<1, nil)
+			if mustAccept {
+				ok := res.accepted() && rc.accepted()
+				if ok && plain != "" { // the escaped spelling denotes the same name as the plain one
+					ps := strings.ReplaceAll(pos, "%s", plain)
+					pr := parseGuard(ps, 0, nil)
+					ok = pr.accepted() && strings.Join(namesOf(res, src), " ") == strings.Join(namesOf(pr, ps), " ")
+				}
+				if !ok && offender == "" {
+					offender = fmt.Sprintf(" NOT-ACCEPTED-OR-DIFFERENT src=%q (accepted=%v)", src, res.accepted())
+				}
+			} else if (res.accepted() || rc.accepted()) && offender == "" {
+				offender = fmt.Sprintf(" ACCEPTED src=%q", src)
+			}
+			a, b, c, note := true, true, true, ""
+			if !res.accepted() && !res.timeout {
+				a, b, c, note = h.runtimeFlagsN(src, pi%6 == 0)
+			}
+			fl := []bool{res.pan == nil && !res.timeout, shapeOK(res), errsInRange(src, res), rc.pan == nil && !rc.timeout, a, b, c}
+			for i, f := range fl {
+				if !f {
+					robust[i] = false
+					if bad == "" {
+						bad = fmt.Sprintf(" FIRST-BAD[%d] src=%q panic=%v%s", i, src, res.pan, note)
+					}
+				}
+			}
+		}
+		if mustAccept {
+			h.env.Add(fmt.Sprintf("CPinned 19 true true %s", Cbool(offender == "")),
+				fmt.Sprintf("identifier-escape %s %q in %d positions: must be accepted with the same names as the plain spelling%s", kind, name, n, offender), "escape-char:accept", true)
+		} else {
+			h.env.Add(fmt.Sprintf("CPinned 50 false false %s", Cbool(offender != "")),
+				fmt.Sprintf("identifier-escape %s %q in %d positions: must be rejected%s", kind, name, n, offender), "escape-char:reject", true)
+		}
+		fs := make([]string, len(robust))
+		for i, f := range robust {
+			fs[i] = Cbool(f)
+		}
+		h.env.Add("CRobust "+Clist(fs), fmt.Sprintf("identifier-escape %s %q robustness, repetition, no side effect, flags=%v%s", kind, name, robust, bad), "escape-char:robust", true)
+	}
+	for _, c := range escStart {
+		family("start-char first", c.esc+"b1", true, c.plain+"b1")
+		family("start-char alone", c.esc, true, c.plain)
+		family("start-char later", "q"+c.esc+"r", true, "q"+c.plain+"r")
+		family("start-char last", "q"+c.esc, true, "q"+c.plain)
+	}
+	for _, c := range escPartOnly {
+		family("part-only-char first", c.esc+"x", false, "")
+		family("part-only-char alone", c.esc, false, "")
+		family("part-only-char first, twice", c.esc+c.esc, false, "")
+		family("part-only-char first, then escaped letter", c.esc+`\u0061`, false, "")
+		family("part-only-char later", "q"+c.esc+"r", true, "q"+c.plain+"r")
+		family("part-only-char last", "q"+c.esc, true, "q"+c.plain)
+		family("part-only-char after escaped start", `\u0071`+c.esc, true, "q"+c.plain)
+	}
+	for _, e := range escNever {
+		family("non-identifier char first", e+"x", false, "")
+		family("non-identifier char later", "q"+e+"r", false, "")
+		family("non-identifier char last", "q"+e, false, "")
+	}
+}
